@@ -100,8 +100,12 @@ def enum_cases(tier, seed):
 
 @st.composite
 def hyp_case(draw, max_len):
-    if draw(st.integers(0, 11)) == 0:
+    r0 = draw(st.integers(0, 23))
+    if r0 <= 1:
         s = draw(gens.long_charged(129, 500))
+        return {"seq": s, "perm": s[::-1], "warm": []}
+    if r0 == 2:
+        s = draw(gens.name_concatenations(1, 12))
         return {"seq": s, "perm": s[::-1], "warm": []}
     warm = draw(gens.warmups())
     s = draw(gens.sequences(max_len=40 if warm else max_len))
